@@ -211,7 +211,7 @@ func c18Tiling(c *Ctx, r *Report, rule string) {
 // sizes around the chunk boundaries; only the length and type bytes are fixed, the content is symbolic), the
 // serialiser's on messages of the same payload sizes: both must produce the reference splitting.
 func c18Chunks(c *Ctx, r *Report, rule string) {
-	r.rule(rule, "Winbox chunking (evaluation of MessageAuth.FromBytes on well-formed chunk sequences for payloads of 35..766 bytes around the chunk boundaries, and of ToChunks for the same payload sizes): the parser accepts every well-formed sequence and hands on chunks that tile the payload; sequences with a short inner chunk, a wrong chunk type or a missing tail are rejected; the serialiser splits a payload into the same chunks", 2)
+	r.rule(rule, "Winbox chunking (evaluation of MessageAuth.FromBytes on well-formed chunk sequences for payloads of 35..766 bytes around the chunk boundaries, and of ToChunks for the same payload sizes): the parser accepts every well-formed sequence and hands on chunks that tile the payload; sequences with a short inner chunk, a wrong chunk type, a missing tail or bytes behind the last chunk are rejected; the serialiser splits a payload into the same chunks", 2)
 	const max = 255
 	split := func(n int) []int {
 		var out []int
@@ -255,6 +255,12 @@ func c18Chunks(c *Ctx, r *Report, rule string) {
 			tcase{"first chunk of type prev", []int{60}, []int64{0xFF}, 0, false},
 			tcase{"tail missing", []int{255, 40}, []int64{0x06, 0xFF}, 10, false},
 			tcase{"second chunk header only", []int{255, 0}, []int64{0x06, 0xFF}, 0, false},
+			// bytes behind the last chunk are not part of the message: accepting them means dropping them
+			// (parse then serialise gives fewer bytes back)
+			tcase{"one byte behind a short chunk", []int{60}, []int64{0x06}, -1, false},
+			tcase{"five bytes behind a short chunk", []int{60}, []int64{0x06}, -5, false},
+			tcase{"one byte behind the second chunk", []int{255, 40}, []int64{0x06, 0xFF}, -1, false},
+			tcase{"twenty bytes behind the second chunk", []int{255, 40}, []int64{0x06, 0xFF}, -20, false},
 		)
 		var problems []string
 		for _, t := range cases {
